@@ -86,7 +86,10 @@ def run(ctx):
             k = rng.randint(2, min(r, c) - 1)
             a, b = rng.randrange(r - k + 1), rng.randrange(c - k + 1)
             s2[b:b + k] = s1[a:a + k]
-        kw = dict(gamma=rng.choice([0.1, 1, 1, 5]), tau=rng.choice([0, 0.2, 0.5, 0.9]), delta=rng.choice([0, -0.1, -0.5, -2]),
+        g_ = rng.choice([0.1, 1, 1, 5])
+        # thresholds include values that point affinities hit exactly (ties: d == tau must count as "not below tau")
+        kw = dict(gamma=g_, tau=rng.choice([0, 0.2, 0.5, 0.9, 1.0, math.exp(-g_ * 1.0), math.exp(-g_ * 0.25)]),
+                  delta=rng.choice([0, -0.1, -0.5, -2]),
                   delta_factor=rng.choice([1, 0.9, 0.5]), only_triu=(selfcmp and rng.random() < 0.7) or rng.random() < 0.1)
         x = rng.random()
         if x < 0.6:
@@ -164,11 +167,15 @@ def run(ctx):
                         ops.append((rng.choice([1, 2]), rng.choice([1, 2]), rng.random() < 0.4))
                     consumed = set()
                     session = []
+                    silent_discards = False
                     okall = True
                     for (k, minlen, restart) in ops:
                         if restart:
                             consumed = set()
                             session = []
+                            silent_discards = False
+                        if minlen > 1:
+                            silent_discards = True     # shorter candidates are consumed without being yielded
                         got = []
                         for m in lc.kbest_matches(k=k, minlen=minlen, buffer=0, restart=restart):
                             path = [(int(x), int(y)) for x, y in m.path]
@@ -176,6 +183,16 @@ def run(ctx):
                             prob = path_problem(path, MPl, consumed)
                             if prob is None and len(path) < minlen:
                                 prob = "path shorter than minlen"
+                            if prob is None and not silent_discards and path:
+                                # traced from a maximum: with minlen=1 no candidate is discarded silently, so the
+                                # end cell must hold the largest value among the cells not yet used
+                                ex, ey = path[-1]
+                                endv = MPl[ex + 1][ey + 1]
+                                best = max((MPl[x + 1][y + 1] for x in range(r) for y in range(c)
+                                            if (x, y) not in consumed), default=-inf)
+                                ctx.count("lc_maximum_checks")
+                                if endv < best * (1 - 1e-12) - 1e-15:
+                                    prob = "match does not start from the maximal available cell: %r < %r" % (endv, best)
                             if prob:
                                 ctx.violation("lc-match-invalid", fn=fn, reason=prob, path=path, ops=[list(o) for o in ops], **wit)
                                 okall = False
